@@ -284,6 +284,7 @@ func (e *FnEnc) block(b *ssa.BasicBlock) {
 		e.loopHeader(b, li, fwd, phis, phiIn)
 	}
 	e.entry[b] = copyState(e.cur)
+	e.bagEnter(b)
 	for _, p := range phis {
 		e.bagInstr(p)
 	}
@@ -500,6 +501,11 @@ func (e *FnEnc) loopModSet(li *loopInfo) map[string]bool {
 	if all {
 		for name := range e.heapVars {
 			if !strings.HasPrefix(name, "VIS.") && !strings.HasPrefix(name, "POS.") && !strings.HasPrefix(name, "GH.") {
+				// objects owned by go/ssa, go/types, ... are not mutated by unknown computations (assumption A-imm,
+				// the same rule as at a single unknown call); explicit stores in the loop are still targets
+				if immutableHeap(name) && !mod[name] {
+					continue
+				}
 				mod[name] = true
 			}
 		}
